@@ -324,6 +324,20 @@ def binding_programs(thorough):
         ("def entry(x, y):\n    a = x\n    a -= y\n    a *= 3\n    a //= 2\n    return a\n", {"augassign-ops"}),
         ("def d(v=[]):\n    return v\ndef entry(x, y):\n    return len(d())\n", {"default-display"}),
         ("k = 2\ndef f(v=k):\n    return v\ndef entry(x, y):\n    return f() + f(x)\n", {"default-name"}),
+        # a default is evaluated when the def statement runs, not at the call
+        ("k = 2\ndef f(v=k):\n    return v\nk = 50\ndef entry(x, y):\n    return f() + f(x)\n", {"default-name", "default-rebound-before-call"}),
+        ("def entry(x, y):\n    k = x\n    def f(a, b=k):\n        return a * 10 + b\n    k = 100\n    return (f(1), f(1, y), k)\n", {"default-name", "default-rebound-before-call", "nested"}),
+        ("def entry(x, y):\n    k = x\n    def f(a, b=k + 1):\n        return a * 10 + b\n    k = 100\n    return f(1)\n", {"default-expression", "default-rebound-before-call"}),
+        # only the selected arm of a conditional expression is evaluated; operands and arguments are evaluated left to right, once
+        ("def say(v):\n    out(v)\n    return v\ndef entry(x, y):\n    r = say(1) if x > 0 else say(2)\n    return r\n", {"condexpr-side-effect"}),
+        ("def say(v):\n    out(v)\n    return v\ndef entry(x, y):\n    r = say(1) + 10 if x > y else say(2) * 3\n    return r\n", {"condexpr-side-effect", "condexpr-compound-arms"}),
+        ("def say(v):\n    out(v)\n    return v\ndef entry(x, y):\n    r = (say(1) if x else say(2)) + (say(3) if y else say(4))\n    return r\n", {"condexpr-side-effect", "condexpr-twice"}),
+        ("def say(v):\n    out(v)\n    return v\ndef entry(x, y):\n    return say(x) - say(y) * say(3)\n", {"evaluation-order-operands"}),
+        ("def say(v):\n    out(v)\n    return v\ndef f(a, b, c):\n    return a * 100 + b * 10 + c\ndef entry(x, y):\n    return f(say(x), c=say(3), b=say(y))\n", {"evaluation-order-arguments"}),
+        ("def say(v):\n    out(v)\n    return v\ndef entry(x, y):\n    l = [say(x), say(y)]\n    d = {say(1): say(2)}\n    return l[say(0)]\n", {"evaluation-order-displays"}),
+        # a plain copy directly after the definition of its source, the source read again later
+        ("def entry(x, y):\n    a = x + 1\n    b = a\n    b = b + y\n    return (a, b)\n", {"copy-then-reuse"}),
+        ("def entry(x, y):\n    a = [x]\n    b = a\n    c = a\n    return (a, b, c)\n", {"copy-then-reuse"}),
         ("def entry(x, y):\n    if x:\n        r = 1\n    elif y:\n        r = 2\n    else:\n        r = 3\n    return r\n", {"elif"}),
         ("def entry(x, y):\n    return [x, y][1]\n", {"subscript-display"}),
         ("def entry(x, y):\n    return (x, y)[0]\n", {"subscript-display"}),
